@@ -355,7 +355,7 @@ Record st := mkst {
 Definition st0 (k2 : option (option str)) : st :=
   mkst PHeader [] None None [] None None k2 None [] None.
 
-Record rec := mkrec { rid : str; rseq : str; rfts : option (list feat) }.
+Record rec := mkrec { rid : str; rseq : str; rfts : option (list feat); rhdr : list (str * hv) }.
 
 Definition set_mode (s : st) (m : pmode) := mkst m (attrs s) (key s) (subkey s) (fts s) (fttype s) (ftmeta s) (key2 s) (locs s) (seq s) (mfts s).
 Definition set_hdr (s : st) (a : list (str * hv)) (k sk : option str) := mkst (mode s) a k sk (fts s) (fttype s) (ftmeta s) (key2 s) (locs s) (seq s) (mfts s).
@@ -529,7 +529,8 @@ Definition finish (excl : list str) (s : st) : res rec :=
                     | None => mfts s
                     end in
           let f2 := if mem k_translation excl then option_map (map del_translation) f1 else f1 in
-          ROk (mkrec (match oid with Some i => i | None => [] end) (upper (upper (seq s))) f2)
+          (* genbank.py:124-127: del meta._genbank.reference, any exception swallowed *)
+          ROk (mkrec (match oid with Some i => i | None => [] end) (upper (upper (seq s))) f2 (adel k_reference (attrs s)))
       end
   end.
 
@@ -655,25 +656,18 @@ Inductive qual :=
 | QNum (k : str) (digits : str)            (* /k=123 *)
 | QRaw (k : str) (v : str)                 (* /k=word   (unquoted, not a number) *)
 | QFlag (k : str).                         (* /k *)
-Record afeat := mkafeat { akey : str; aloc : lexp; awrap : list bool; aquals : list qual }.
+Record afeat := mkafeat { akey : str; aloc : lexp; awrap : list nat; aquals : list qual }.
 Record hfield := mkhfield { hk : str; hlines : list str; hsubs : list (str * list str) }.
-Record arec := mkarec { ahdr : list hfield; afts : list afeat; aseq : str; ablank : bool }.
+Record arec := mkarec { ahdr : list hfield; afts : list afeat; aseq : str; ablank : bool; aorigin : bool }.
 
 Definition pad_right (n : nat) (s : str) : str := s ++ spaces (n - length s).
 Definition pad_left (n : nat) (s : str) : str := spaces (n - length s) ++ s.
 
-(* break the location text after the commas selected by w *)
-Fixpoint wrap_at (s : str) (w : list bool) : list str :=
-  match s with
-  | [] => [[]]
-  | c :: r =>
-      if byte_eqb ","%byte c then
-        match w with
-        | true :: w' => [c] :: wrap_at r w'
-        | false :: w' => cons_head c (wrap_at r w')
-        | [] => cons_head c (wrap_at r [])
-        end
-      else cons_head c (wrap_at r w)
+(* break the location text into pieces of the given sizes (any break point; the rest of the text is the last piece) *)
+Fixpoint wrap_at (s : str) (w : list nat) : list str :=
+  match w with
+  | [] => [s]
+  | n :: w' => if (n =? 0)%nat || (length s <=? n)%nat then [s] else firstn n s :: wrap_at (skipn n s) w'
   end.
 
 Definition render_field_lines (first : str) (ls : list str) : list str :=
@@ -728,7 +722,7 @@ Definition feat_header : str := bs "FEATURES             Location/Qualifiers"%bs
 Definition origin_line : str := bs "ORIGIN"%bs.
 Definition render_rec (r : arec) : list str :=
   flat_map render_hfield (ahdr r) ++ [feat_header] ++ flat_map render_feat (afts r)
-  ++ [origin_line] ++ render_origin (aseq r) ++ [sl2] ++ (if ablank r then [[]] else []).
+  ++ (if aorigin r then [origin_line] ++ render_origin (aseq r) else []) ++ [sl2] ++ (if ablank r then [[]] else []).
 Definition render_gb (rs : list arec) : str :=
   flat_map (fun l => l ++ [nl]) (flat_map render_rec rs).
 
@@ -749,15 +743,46 @@ Fixpoint view_quals (qs : list qual) (flags : list str) (seen_flag : bool) : lis
   | QRaw k v :: r => (k, QS v) :: view_quals r flags seen_flag
   | QFlag _ :: r => if seen_flag then view_quals r flags true else (k_misc, QL flags) :: view_quals r flags true
   end.
+(* the qualifier dict as the reader builds it (genbank.py:197-215): assignment ftmeta[k] = v keeps the position of the first
+   occurrence of k and the value of the last; flags are appended to the list under 'misc' *)
+Definition apply_qual (m : list (str * qv)) (q : qual) : list (str * qv) :=
+  match q with
+  | QText k cs => aset k (QS (concat cs)) m
+  | QNum k dg => aset k (QI (dval dg)) m
+  | QRaw k v => aset k (QS v) m
+  | QFlag k => match aget k_misc m with
+               | None => aset k_misc (QL [k]) m
+               | Some (QL xs) => aset k_misc (QL (xs ++ [k])) m
+               | Some _ => m
+               end
+  end.
+Definition quals_dict (qs : list qual) : list (str * qv) := fold_left apply_qual qs [].
 Definition view_feat (excl : list str) (oid : option str) (f : afeat) : feat :=
-  let qs := view_quals (aquals f) (flag_names (aquals f)) false in
+  let qs := quals_dict (aquals f) in
   mkfeat (akey f) (sort_locs (sem (aloc f)))
          (if mem k_translation excl then adel k_translation qs else qs) oid.
+(* header metadata (meta._genbank): one entry per field name in lower case (a repeated field replaces the value at the first
+   position); continuation lines joined with one blank; LOCUS words joined with ", "; every sub-field line wraps the value so far
+   as Attr(id=<value so far>, <subfield>=<text>) (genbank.py:143-171) *)
+Definition add_cont (x : str) (ts : list str) : str := fold_left (fun acc t => acc ++ sp :: t) ts x.
+Definition lines_val (ls : list str) : str := match ls with [] => [] | l :: r => add_cont l r end.
+Definition main_val (h : hfield) : str :=
+  match hlines h with
+  | [] => []
+  | l :: r => add_cont (if str_eqb (lower (hk h)) k_locus then join (bs ", "%bs) (split_ws l) else l) r
+  end.
+Definition sub_val (V : hv) (p : str * list str) : hv := HA (aset (lower (fst p)) (HS (lines_val (snd p))) [(k_id, V)]).
+Definition field_val (h : hfield) : hv := fold_left sub_val (hsubs h) (HS (main_val h)).
+Definition hdr_step (a : list (str * hv)) (h : hfield) : list (str * hv) := aset (lower (hk h)) (field_val h) a.
+Definition view_hdr (hs : list hfield) : list (str * hv) := fold_left hdr_step hs [].
+Definition is_nil {A} (l : list A) : bool := match l with [] => true | _ => false end.
 Definition view_rec (excl : list str) (r : arec) : rec :=
   let oid := view_id r in
   mkrec (match oid with Some i => i | None => [] end)
-        (if mem k_seq excl then [] else upper (aseq r))
-        (if mem k_fts excl then None else Some (map (view_feat excl oid) (afts r))).
+        (if mem k_seq excl || negb (aorigin r) then [] else upper (aseq r))
+        (* meta.fts is only set when the ORIGIN line is reached (genbank.py:186-188) *)
+        (if mem k_fts excl || negb (aorigin r) then None else Some (map (view_feat excl oid) (afts r)))
+        (adel k_reference (view_hdr (ahdr r))).
 Definition view (excl : list str) (rs : list arec) : list rec := map (view_rec excl) rs.
 Definition view_fts (excl : list str) (rs : list arec) : list feat :=
   flat_map (fun r => match rfts r with Some l => l | None => [] end) (view (k_seq :: excl) rs).
@@ -808,21 +833,24 @@ Definition wf_qual (q : qual) : bool :=
                 && match py_int v with None => true | Some _ => false end
   | QFlag k => nonempty k && forallb is_word k
   end.
-Definition wf_afeat (f : afeat) : bool :=
+(* everything but the one-strand condition: such a feature is read up to the point where its LocationTuple is built *)
+Definition wf_afeat_pre (f : afeat) : bool :=
   nonempty (akey f) && forallb is_keych (akey f) && (length (akey f) <=? 15)%nat
   && negb (startswith k_origin (lower (akey f)))   (* with 'fts' excluded a key line starting with 'origin' ends the table *)
-  && wf_lexp (aloc f) && one_strand (sem (aloc f))
-  && forallb wf_qual (aquals f)
-  && distinct (map qkey (filter (fun q => negb (is_flag q)) (aquals f))).
-Definition wf_arec (r : arec) : bool :=
+  && wf_lexp (aloc f)
+  && forallb wf_qual (aquals f).
+Definition wf_afeat (f : afeat) : bool := wf_afeat_pre f && one_strand (sem (aloc f)).
+Definition wf_arec (excl : list str) (r : arec) : bool :=
   forallb wf_hfield (ahdr r)
   && (length (filter (fun h => str_eqb (hk h) k_ACCESSION) (ahdr r)) <=? 1)%nat
   && forallb wf_afeat (afts r)
   && forallb is_alpha (aseq r)
   (* the ORIGIN line numbers fit their 9-column field (fewer than 10^9 residues) *)
-  && forallb (fun p => all_digits (dec_of_nat p) && (length (dec_of_nat p) <=? 9)%nat) (origin_positions (aseq r)).
+  && forallb (fun p => all_digits (dec_of_nat p) && (length (dec_of_nat p) <=? 9)%nat) (origin_positions (aseq r))
+  (* a record without ORIGIN: a pending feature at '//' is an AssertionError (C10_read_noorigin), so either no feature or fts excluded *)
+  && (aorigin r || mem k_fts excl || is_nil (afts r)).
 Definition wf_C10 (excl : list str) (rs : list arec) : bool :=
-  nonempty rs && forallb wf_arec rs
+  nonempty rs && forallb (wf_arec excl) rs
   (* no rendered line contains a newline (implied by the character classes above; kept as a checked condition) *)
   && forallb (fun l => negb (has nl l)) (flat_map render_rec rs).
 
@@ -832,8 +860,14 @@ Definition v_qv (q : qv) : val := match q with QS s => VS s | QI z => VI z | QL 
 Definition v_feat (f : feat) : val :=
   VL [VS (ftype f); VL (map v_loc (flocs f)); VL (map (fun p => VL [VS (fst p); v_qv (snd p)]) (fquals f));
       VOpt VS (fseqid f)].
+Fixpoint v_hv (h : hv) : val :=
+  match h with
+  | HS s => VS s
+  | HA l => VL (map (fun p => VL [VS (fst p); v_hv (snd p)]) l)
+  end.
+Definition v_hdr (l : list (str * hv)) : val := VL (map (fun p => VL [VS (fst p); v_hv (snd p)]) l).
 Definition v_rec (r : rec) : val :=
-  VL [VS (rid r); VS (rseq r); VOpt (fun l => VL (map v_feat l)) (rfts r)].
+  VL [VS (rid r); VS (rseq r); VOpt (fun l => VL (map v_feat l)) (rfts r); v_hdr (rhdr r)].
 Definition v_res {A} (f : A -> val) (r : res A) : val := match r with ROk a => f a | RErr k => VE k end.
 Definition v_recs (l : list rec) : val := VL (map v_rec l).
 Definition v_feats (l : list feat) : val := VL (map v_feat l).
@@ -901,14 +935,14 @@ Definition box_hdr : list hfield :=
    mkhfield (d "ACCESSION") [d "AB000001 X2"] [];
    mkhfield (d "SOURCE") [d "Some virus"] [(d "ORGANISM", [d "Some virus"; d "Viruses; Riboviria."])];
    mkhfield (d "REFERENCE") [d "1  (bases 1 to 20)"] [(d "AUTHORS", [d "Smith,J."]); (d "TITLE", [d "Direct"])]].
-Definition box_file (w : list bool) (e : lexp) : list arec :=
+Definition box_file (w : list nat) (e : lexp) : list arec :=
   [mkarec box_hdr [mkafeat (d "source") (LRange false (d "1") false (d "70")) [] [QText (d "organism") [d "Some virus"]];
                    mkafeat (d "CDS") e w box_quals]
-          (d "acgtacgtacgtacgtacgtacgtacgtacgtacgtacgtacgtacgtacgtacgtacgtacgtacgtac") false;
-   mkarec [mkhfield (d "LOCUS") [d "X"] []] [mkafeat (d "gene") e [] []] (d "ACGTnn") true].
+          (d "acgtacgtacgtacgtacgtacgtacgtacgtacgtacgtacgtacgtacgtacgtacgtacgtacgtac") false true;
+   mkarec [mkhfield (d "LOCUS") [d "X"] []] [mkafeat (d "gene") e [] []] (d "ACGTnn") true true].
 Definition box_files : list (list arec) :=
   flat_map (fun w => flat_map (fun f => map (fun e => box_file w (f e)) box_leaves) box_wrappers)
-           [[]; [true; true; true; true; true; true]; [false; true; false; true]].
+           [[]; [1; 3; 11; 1; 2; 9]%nat; [15; 7]%nat].
 Definition box_excl : list (list str) :=
   [[]; [k_seq]; [k_translation]; [k_translation; k_seq]; [k_fts]; [k_fts; k_seq]; [k_translation; k_fts]].
 Definition box_ok (excl : list str) (rs : list arec) : bool :=
